@@ -80,6 +80,18 @@ pub fn render_node(
 
     transform = transform.pre_translate(-bbox.x(), -bbox.y());
 
+    // `abs_layer_bounding_box` is in canvas coordinates,
+    // so transforms of all ancestors have to be applied as well.
+    let parent_ts = match node {
+        // An absolute transform of a group includes its own transform,
+        // which will be applied again during rendering.
+        usvg::Node::Group(ref g) => g
+            .abs_transform()
+            .pre_concat(g.transform().invert().unwrap_or_default()),
+        _ => node.abs_transform(),
+    };
+    transform = transform.pre_concat(parent_ts);
+
     let ctx = render::Context { max_bbox };
     render::render_node(node, &ctx, transform, pixmap);
 
